@@ -24,13 +24,18 @@ pub mod front;
 pub mod contour;
 pub mod queue;
 pub mod widen;
+pub mod sweep;
 
 #[cfg(verif_replay)]
 #[test]
 fn replay_entry() {
     let (name, mut r) = src::ReplaySrc::from_env();
     let found = dispatch(&name, &mut r);
-    assert!(found, "unknown harness {}", name);
+    if !found {
+        // harnesses that replace callees by recorder/contract stubs have no native counterpart
+        println!("REPLAY-NOT-AVAILABLE {}", name);
+        std::process::exit(4);
+    }
     println!("REPLAY-PASSED {}", name);
 }
 
